@@ -70,6 +70,26 @@ def check_codes(ctx):
             caught = 'escaped: ' + type(err).__name__
         fact(ctx, subject, 'raise/catch through the common base', True,
              caught is cls)
+    # an application may derive its own exceptions from the library's: the
+    # mapping must keep naming the library's classes
+    before = dict(mapping)
+    made = []
+    for code, name, kind in spec_table.REPLY_CODES:
+        cls = before.get(code)
+        if cls is None:
+            continue
+        made.append(type('App' + cls.__name__, (cls,), {'name': 'app-error'}))
+        other = ex.AMQPHardError if kind == 'soft' else ex.AMQPSoftError
+        try:
+            made.append(type('AppMixed' + cls.__name__, (cls, other), {}))
+        except TypeError:
+            pass
+    for code, name, kind in spec_table.REPLY_CODES:
+        fact(ctx, 'reply code %d' % code,
+             'still maps to the same class after applications subclassed it',
+             True, mapping.get(code) is before.get(code))
+    fact(ctx, 'CLASS_MAPPING', 'codes after applications defined subclasses',
+         sorted(c for c, _n, _k in spec_table.REPLY_CODES), sorted(mapping))
     # every other AMQP* class of the module is mapped; one code per class
     names = {}
     for attr in dir(ex):
